@@ -233,6 +233,14 @@ def r4(ctx):
     relabel(ctx, "C16.R4", c01.r9)
 
 
+def _r4_parts():
+    from .shared import relabel
+    from .shared import relabel_parts
+    return relabel_parts("C16.R4", c01.r9)
+
+
+r4.parts = _r4_parts
+
 
 def f1(ctx):
     """generic same-name parameter forwarding over this property's modules (see shared.generic_forwarding)."""
